@@ -133,7 +133,7 @@ def x3(ctx):
             if x != TOTAL and ((tag(x) == "call" and x[1].endswith("<impl [T]>::len") and len(x[2]) == 1 and x[2][0] == D) or (tag(x) == "len" and len(x) == 2 and x[1] == D)):
                 return TOTAL
             # the length of a sub-slice: len(x[s..]) = len(x) - s, len(x[s..e]) = e - s, len(x[..e]) = e (the indexing itself panics when out of range)
-            if tag(x) == "len" and len(x) == 2 and tag(x[1]) == "call" and x[1][1].endswith("::index") and len(x[1][2]) == 2 and tag(x[1][2][1]) == "struct":
+            if x != TOTAL and tag(x) == "len" and len(x) == 2 and tag(x[1]) == "call" and x[1][1].endswith("::index") and len(x[1][2]) == 2 and tag(x[1][2][1]) == "struct":
                 base, rng = x[1][2]
                 s_, e_ = struct_get(rng, "start"), struct_get(rng, "end")
                 kind = rng[1].split("::")[-1]
